@@ -204,11 +204,12 @@ def ocaml_eval(stmts, timeout=900):
     try:
         src = os.path.join(tmpd, 'driver.ml')
         with open(src, 'w') as f:
-            f.write('open Fastor_model\nopen Prelude\nlet () =\n')
-            for s in stmts: f.write('  ' + s + ';\n')
-            f.write('  ()\n')
+            f.write('open Fastor_model\nopen Prelude\n')
+            for s in stmts: f.write('let () = ' + s + '\n')
         exe = os.path.join(tmpd, 'driver.exe')
-        r = subprocess.run(['ocamlfind', 'ocamlopt', '-w', '-a', '-I', EXTR, os.path.join(EXTR, 'fastor_model.cmx'), os.path.join(EXTR, 'prelude.cmx'), src, '-o', exe],
+        # large generated drivers overflow the compiler's default stack: raise the limit for this command only
+        cmdline = ' '.join(['ocamlfind', 'ocamlopt', '-w', '-a', '-I', EXTR, os.path.join(EXTR, 'fastor_model.cmx'), os.path.join(EXTR, 'prelude.cmx'), src, '-o', exe])
+        r = subprocess.run(['bash', '-c', 'ulimit -s 4000000 2>/dev/null || ulimit -s unlimited 2>/dev/null; ' + cmdline],
                            capture_output=True, text=True, timeout=timeout)
         if r.returncode != 0: raise RuntimeError('ocaml driver build failed:\n' + (r.stdout + r.stderr)[-3000:])
         r = subprocess.run([exe], capture_output=True, text=True, timeout=timeout)
